@@ -10,7 +10,7 @@
    17 = Pin.Equals / PinOptions.Equals on two well-formed values differs from field-by-field sameness;
    20 = a recorded malformed input still makes its decoder panic / yield a value that cannot be re-encoded;
    14 = a status filter of defined bits / a named pin type / a pin mode does not survive its string form. *)
-From V Require Import Base.Common Base.C08_Str Model.C08_Codec Model.C08_Query Model.C08_Status Base.C08_Schema Gen.C08Tags Model.C08_Fmap Model.C08_Equals.
+From V Require Import Base.Common Base.C08_Str Model.C08_Codec Model.C08_Query Model.C08_Status Base.C08_Schema Gen.C08Tags Model.C08_Fmap Model.C08_Equals Model.C08_Wire.
 Open Scope Z_scope.
 
 (* ---- decidable equalities on the value types ---- *)
@@ -112,6 +112,20 @@ Definition model_vcycle (c : codec) (tn : string) (v : val) : obs_v :=
 Definition spec_v (c : codec) (tn : string) (v : val) (o : obs_v) : bool :=
   if wf_val c api_schema true (TStruct tn) false v then obs_v_eqb o (ObsV v) else true.
 
+(* ---- byte-level stored form ---- *)
+Definition bytes_eqb : list N -> list N -> bool := list_eqb N.eqb.
+Definition entry_eqb (a b : list N * list N) : bool := bytes_eqb (fst a) (fst b) && bytes_eqb (snd a) (snd b).
+(* metadata is a Go map: the real writer emits its entries in any order *)
+Definition meta_perm_eqb (a b : list (list N * list N)) : bool :=
+  Nat.eqb (length a) (length b) && forallb (fun e => existsb (entry_eqb e) b) a && forallb (fun e => existsb (entry_eqb e) a) b.
+Definition wopts_eqb (a b : wopts) : bool :=
+  (w_rmin a =? w_rmin b) && (w_rmax a =? w_rmax b) && bytes_eqb (w_name a) (w_name b) && (w_shard a =? w_shard b)%N
+  && meta_perm_eqb (w_meta a) (w_meta b) && bytes_eqb (w_update a) (w_update b) && (w_expire a =? w_expire b)%N
+  && list_eqb bytes_eqb (w_origins a) (w_origins b).
+Definition wpin_eqb (a b : wpin) : bool :=
+  bytes_eqb (w_cid a) (w_cid b) && (w_type a =? w_type b)%N && list_eqb bytes_eqb (w_allocs a) (w_allocs b)
+  && (w_depth a =? w_depth b) && bytes_eqb (w_ref a) (w_ref b) && opt_eqb wopts_eqb (w_opts a) (w_opts b).
+
 Inductive payload :=
   | CPb (p : pin) (o : obs_pin)
   | CPbMsg (old : pin) (m : pbpin) (o o2 : obs_pin)
@@ -124,7 +138,8 @@ Inductive payload :=
   | CMsgpack (tn : string) (v : val) (o : obs_v)   (* value of record type tn through the msgpack codec into a fresh value *)
   | CJson (tn : string) (v : val) (o : obs_v)
   | CEquals (same : bool) (p q : pin) (b bo : bool)    (* p.Equals(q) = b ; p.PinOptions.Equals(&q.PinOptions) = bo *)
-  | CFuzz (dec : string) (clean : bool).               (* replay of one recorded malformed input: did the decoder behave *)
+  | CFuzz (dec : string) (clean : bool)                (* replay of one recorded malformed input: did the decoder behave *)
+  | CWire (m : wpin) (det real : list N).              (* a pb message, its bytes from proto.Marshal with sorted map keys, and as ProtoMarshal writes them *)
 
 Definition case := (N * payload)%type.
 
@@ -195,6 +210,11 @@ Definition check_case (c : case) : list (N * N * N) :=
       fail_if (negb same && wf_eq_pin p && wf_eq_pin q
                && negb (Bool.eqb b (pin_sameb p q) && Bool.eqb bo (opts_sameb (popts p) (popts q)))) id 17 0
   | CFuzz _ clean => fail_if (negb clean) id 20 0
+  | CWire m det real =>
+      (* the model writer produces the library's bytes; the model reader reads the library's bytes back *)
+      fail_if (negb (bytes_eqb (ser_pin m) det
+                     && match parse_pin det with Some m' => wpin_eqb m m' | None => false end
+                     && match parse_pin real with Some m' => wpin_eqb m m' | None => false end)) id 1 0
   end.
 
 Definition failing (cs : list case) : list (N * N * N) := flat_map check_case cs.
